@@ -99,13 +99,24 @@ Section Run.
         :: run_builds t mp ps' r
     end.
 
+  Definition find_sv (mp : option (list Z * Z)) (ids : list Z) : sv :=
+    match mp with
+    | None => SL []
+    | Some (declared, _) =>
+        match find_indices declared ids with
+        | Ok l => SL [SZ 0; SL (map SZ l)]
+        | Err e => SL [SZ (err_code e); SL []]
+        end
+    end.
+
   Definition run_case (decl : list Z) (vs : vstore) (defs : list hdef) (ops : list (icall * Z))
-             (mp : option (list Z * Z)) (bs : list bspec) : sv :=
+             (mp : option (list Z * Z)) (bs : list bspec) (finds : list (list Z)) : sv :=
     let h := heap_of defs in
     let '(t, outs) := run_tmpl (mkTmpl Srec true [] [] [] decl) h ops in
     SL [SL (map SZ outs);
         SL (map pcall_sv (t_calls Srec t));
         SL (map pcall_sv (t_tobuild Srec t));
         SB (t_building Srec t);
-        SL (run_builds t mp (mkPs vs h) bs)].
+        SL (run_builds t mp (mkPs vs h) bs);
+        SL (map (find_sv mp) finds)].
 End Run.
